@@ -126,6 +126,62 @@ def clone_module(idx, shape, entry, named_mask, generic=False, extra=(), bounds=
     return "\n".join(lines + ["}"])
 
 
+FIELD_FORMS = [("(CF, CF)", "(CF(%d, 1), CF(%d, 2))"), ("[CF; 2]", "[CF(%d, 1), CF(%d, 2)]"), ("::core::option::Option<CF>", "::core::option::Option::Some(CF(%d, %d))"),
+               ("::std::vec::Vec<CF>", "::std::vec![CF(%d, 1), CF(%d, 2)]"), ("::std::boxed::Box<CF>", "::std::boxed::Box::new(CF(%d, %d))"),
+               ("((CF,), CF)", "((CF(%d, 1),), CF(%d, 2))"), ("CF", "CF(%d, %d)")]
+
+
+def clone_fieldwise_module(idx, kind, forms, entry):
+    """fields whose TYPES are tuples / arrays / Option / Vec / Box of the recording type: clone / clone_from of the derived impl
+    must be exactly one call of the field type's own clone / clone_from per field, in order (whatever that type then does)"""
+    tys = [FIELD_FORMS[k][0] for k in forms]
+    def val(k, tag):
+        return FIELD_FORMS[k][1] % (tag, tag) if FIELD_FORMS[k][1].count("%d") == 2 else FIELD_FORMS[k][1] % tag
+    n = len(forms)
+    if kind == "struct":
+        decl = "pub struct T(%s);" % ", ".join("pub " + t for t in tys)
+        mk = lambda tag: "T(%s)" % ", ".join(val(k, tag + j) for j, k in enumerate(forms))
+        flds = lambda x: ["%s.%d" % (x, j) for j in range(n)]
+        bind = ""
+    else:
+        decl = "pub enum T { U, V { %s } }" % ", ".join("f%d: %s" % (j, t) for j, t in enumerate(tys))
+        mk = lambda tag: "T::V { %s }" % ", ".join("f%d: %s" % (j, val(k, tag + j)) for j, k in enumerate(forms))
+        flds = None
+    lines = ["pub mod m%d {" % idx, "    use ::dx_support::CF;", "    %s %s" % (derive_head(["Clone"], entry), decl),
+             "    pub fn run() -> String {"]
+    # derived clone_from vs the fields' own clone_from, one after the other
+    lines.append("        let b: T = %s;" % mk(40))
+    lines.append("        let mut a1: T = %s; let mut a2: T = %s;" % (mk(10), mk(10)))
+    lines.append("        ::dx_support::take_log(); <T as ::core::clone::Clone>::clone_from(&mut a1, &b); let got = ::dx_support::take_log();")
+    if kind == "struct":
+        for j, t in enumerate(tys):
+            lines.append("        <%s as ::core::clone::Clone>::clone_from(&mut a2.%d, &b.%d);" % (t, j, j))
+    else:
+        pat = ", ".join("f%d" % j for j in range(n))
+        lines.append("        if let (T::V { %s }, T::V { %s }) = (&mut a2, &b) {" % (pat, ", ".join("f%d: g%d" % (j, j) for j in range(n))))
+        for j, t in enumerate(tys):
+            lines.append("            <%s as ::core::clone::Clone>::clone_from(f%d, g%d);" % (t, j, j))
+        lines.append("        }")
+    lines.append("        let want = ::dx_support::take_log();")
+    lines.append("        let from_log_equal = got == want; let from_state_equal = format!(\"{:?}\", dbg(&a1)) == format!(\"{:?}\", dbg(&a2));")
+    # derived clone vs the fields' own clone
+    lines.append("        ::dx_support::take_log(); let c1 = <T as ::core::clone::Clone>::clone(&b); let got = ::dx_support::take_log();")
+    if kind == "struct":
+        lines.append("        let c2 = T(%s);" % ", ".join("<%s as ::core::clone::Clone>::clone(&b.%d)" % (t, j) for j, t in enumerate(tys)))
+    else:
+        lines.append("        let c2 = if let T::V { %s } = &b { T::V { %s } } else { T::U };" % (pat, ", ".join("f%d: <%s as ::core::clone::Clone>::clone(f%d)" % (j, t, j) for j, t in enumerate(tys))))
+    lines.append("        let want = ::dx_support::take_log();")
+    lines.append("        let clone_log_equal = got == want; let clone_state_equal = format!(\"{:?}\", dbg(&c1)) == format!(\"{:?}\", dbg(&c2));")
+    lines.append("        format!(\"{{\\\"id\\\":%d,\\\"ev\\\":\\\"clone_fieldwise\\\",\\\"from_log_equal\\\":{},\\\"from_state_equal\\\":{},\\\"clone_log_equal\\\":{},\\\"clone_state_equal\\\":{}}}\\n\", from_log_equal, from_state_equal, clone_log_equal, clone_state_equal)" % idx)
+    lines.append("    }")
+    if kind == "struct":
+        lines.append("    fn dbg(t: &T) -> String { format!(\"%s\", %s) }" % (" ".join("{:?}" for _ in tys), ", ".join("t.%d" % j for j in range(n))))
+    else:
+        lines.append("    fn dbg(t: &T) -> String { match t { T::U => String::new(), T::V { %s } => format!(\"%s\", %s) } }" % (pat, " ".join("{:?}" for _ in tys), pat))
+    lines.append("}")
+    return "\n".join(lines)
+
+
 def clone_history_module(idx, shape, entry, named_mask, script):
     """same type, but a scripted history: list of ("set", var, value-index) / ("clone", d, s) / ("clone_from", d, s)"""
     base = clone_module(idx, shape, entry, named_mask)
